@@ -387,3 +387,111 @@ def cli_simulation(text, goal_texts, n, samples):
             k, v = ln.rsplit(" = ", 1)
             lines.append([k.strip(), v.strip()])
     return {"lines": lines, "ncalls": len(script.trace)}
+
+
+# ------------------------------------------------------------------------------------------------
+# several runs in ONE simulate call: independence of the runs, arguments of every sampler call
+# ------------------------------------------------------------------------------------------------
+
+def enumerate_multi(text, n, vars, samples, max_paths=4000, patches=None):
+    """Every resolution of the random sources over one call `Simulator(n).simulate(program, [], samples)`;
+    returns the joint law of the tuple (final state of run 1, ..., final state of run `samples`)."""
+    from inputparser import Parser
+    from simulation import Simulator
+    program = Parser().parse_string(text)
+    _apply_patches(program, patches)
+    joint = {}
+    prefix = []
+    npaths = 0
+    error = None
+    truncated = False
+    while True:
+        script = Script(prefix)
+        try:
+            with Patches(script=script):
+                res = Simulator(n).simulate(program, [], samples)
+        except Exception as e:  # noqa
+            error = {"etype": type(e).__name__, "message": str(e)[:200]}
+            break
+        if len(res.samples) != samples or any(len(run) != n + 1 for run in res.samples):
+            error = {"etype": "HarnessShape", "message": f"{len(res.samples)} runs"}
+            break
+        w = Fr(1)
+        for t in script.trace:
+            w *= t[3]
+        key = tuple(tuple(_state_values(run[-1], vars)) for run in res.samples)
+        firsts = tuple(tuple(_state_values(run[0], vars)) for run in res.samples)
+        key = (firsts, key)
+        joint[key] = joint.get(key, Fr(0)) + w
+        npaths += 1
+        tr = script.trace
+        j = len(tr) - 1
+        while j >= 0 and tr[j][1] + 1 >= tr[j][2]:
+            j -= 1
+        if j < 0:
+            break
+        prefix = [t[1] for t in tr[:j]] + [tr[j][1] + 1]
+        if npaths >= max_paths:
+            truncated = True
+            break
+    return {"joint": [[fr_str(w), [list(r) for r in k[0]], [list(r) for r in k[1]]] for k, w in joint.items()],
+            "npaths": npaths, "truncated": truncated, "error": error}
+
+
+class ValueScript:
+    """first option for every discrete source, the next value of a fixed cyclic list for every rvs call"""
+
+    def __init__(self, values):
+        self.values = [Fr(v) for v in values]
+        self.k = 0
+        self.trace = []
+
+    def decide(self, kind, weights, entries):
+        self.trace.append((kind, 0, len(weights), weights[0] / sum(weights), entries[0]))
+        return 0
+
+    def next_value(self):
+        v = self.values[self.k % len(self.values)]
+        self.k += 1
+        self.trace.append(("rvs", 0, 1, Fr(1), ["v", fr_str(v)]))
+        return float(v)
+
+
+def trace_draws(text, n, samples, values, vars):
+    """ONE call `Simulator(n).simulate(program, [], samples)`; every scipy `rvs` call is recorded with the arguments it
+    received and answered with the next scripted value.  Per run: the calls in order, the tape, the states."""
+    import scipy.stats as st
+    from inputparser import Parser
+    from simulation import Simulator
+    program = Parser().parse_string(text)
+    script = ValueScript(values)
+    calls = []
+    marks = []           # (number of calls, tape length) at the start of every run
+    with Patches(script=script):
+        def make(name):
+            def rvs(*args, **kwargs):
+                calls.append(_normalise_call({"fn": name, "args": [float(a) for a in args],
+                                              "kwargs": {k: float(v) for k, v in kwargs.items()}}))
+                return script.next_value()
+            return rvs
+        for name in SCIPY_FAMILIES:
+            getattr(st, name).rvs = make(name)
+        sim = Simulator(n)
+        inner = sim.execute
+
+        def execute(element, state):
+            if element is program.initial:
+                marks.append((len(calls), len(script.trace)))
+            return inner(element, state)
+        sim.execute = execute
+        res = sim.simulate(program, [], samples)
+    runs = []
+    if len(marks) != samples:
+        return {"error": f"the initial section was executed {len(marks)} times for {samples} runs", "runs": [],
+                "ncalls": len(calls)}
+    marks.append((len(calls), len(script.trace)))
+    for r in range(samples):
+        (c0, t0), (c1, t1) = marks[r], marks[r + 1]
+        runs.append({"calls": calls[c0:c1], "tape": [t[4] for t in script.trace[t0:t1]],
+                     "states": [_state_values(s, vars) for s in res.samples[r]]})
+    return {"error": None, "runs": runs, "ncalls": len(calls)}
